@@ -1,4 +1,73 @@
-(* C10 placeholder, replaced below *)
-From RV Require Import Model.Mapping.
-Theorem C10_placeholder : True. Proof. exact I. Qed.
-Eval cbv in "ASSUMPTIONS-OF C10_placeholder"%string. Print Assumptions C10_placeholder.
+(* C10  Override keys replace instead of merging.  Statements only. *)
+From RV Require Import Model.Mapping Model.Yaml Spec.DeepMerge Proofs.MappingFacts Proofs.DeepMergeFacts.
+
+(** An override (marker ~ or the override flag carried by a merged mapping's entry) on a
+    present, non-constant key replaces the value in place: whatever earlier layers contributed
+    (a value, a layer list, a type conflict among its layers) is gone. *)
+Theorem C10_override_replaces :
+  forall m k v fc fo e,
+    m_find (stripped k) m = Some e -> e_const e = false ->
+    fo || is_pover (marker k) = true ->
+    insert_impl m k v fc fo =
+      Ok (m_set (stripped k) (fun e => mk_entry (stripped k) v (fc || is_pconst (marker k)) (e_over e)) m).
+Proof. exact insert_override_replaces. Qed.
+Eval cbv in "ASSUMPTIONS-OF C10_override_replaces"%string. Print Assumptions C10_override_replaces.
+
+(** Later layers merge onto the new value as usual: a plain write appends a layer. *)
+Theorem C10_plain_write_appends_layer :
+  forall m k v fc fo e,
+    m_find (stripped k) m = Some e -> e_const e = false ->
+    fo || is_pover (marker k) = false ->
+    insert_impl m k v fc fo =
+      Ok (m_set (stripped k)
+            (fun e0 => mk_entry (stripped k)
+                         (match e_val e with
+                          | VList l => VList (l ++ layers_of v)
+                          | _ => VList (e_val e :: layers_of v)
+                          end) (fc || is_pconst (marker k)) (e_over e0)) m).
+Proof. exact insert_appends. Qed.
+Eval cbv in "ASSUMPTIONS-OF C10_plain_write_appends_layer"%string. Print Assumptions C10_plain_write_appends_layer.
+
+(** An override with no earlier value: the value is stored and the key remembers the override,
+    which fires when this mapping is merged into another one. *)
+Theorem C10_override_without_earlier_value :
+  forall m k v fc fo,
+    m_find (stripped k) m = None ->
+    insert_impl m k v fc fo =
+      Ok (m ++ [mk_entry (stripped k) v (is_pconst (marker k) || fc) (is_pover (marker k) || fo)]).
+Proof. exact insert_absent. Qed.
+Eval cbv in "ASSUMPTIONS-OF C10_override_without_earlier_value"%string. Print Assumptions C10_override_without_earlier_value.
+
+(** Sibling keys are unaffected, and the order of the keys never changes (new keys go last). *)
+Theorem C10_siblings_unaffected :
+  forall m k v fc fo m' k2,
+    insert_impl m k v fc fo = Ok m' -> k2 <> stripped k -> m_find k2 m' = m_find k2 m.
+Proof. exact insert_other_key. Qed.
+Eval cbv in "ASSUMPTIONS-OF C10_siblings_unaffected"%string. Print Assumptions C10_siblings_unaffected.
+
+Theorem C10_key_order_kept :
+  forall m k v fc fo m',
+    insert_impl m k v fc fo = Ok m' ->
+    map e_key m' = map e_key m \/ map e_key m' = map e_key m ++ [stripped k].
+Proof. exact insert_keys. Qed.
+Eval cbv in "ASSUMPTIONS-OF C10_key_order_kept"%string. Print Assumptions C10_key_order_kept.
+
+(** The specification used as oracle: an override empties what the key has collected, other
+    keys and the key order are untouched. *)
+Theorem C10_spec_override_discards :
+  forall k p v slots s,
+    slot_find k slots = Some s -> sl_const s = false ->
+    exists slots', slot_write k p v slots = SOk slots' /\
+      slot_find k slots' = Some {| sl_key := k;
+                                   sl_pending := if is_pover p then [v] else sl_pending s ++ [v];
+                                   sl_const := is_pconst p |} /\
+      (forall k2, k2 <> k -> slot_find k2 slots' = slot_find k2 slots) /\
+      map sl_key slots' = map sl_key slots.
+Proof. exact spec_write_present. Qed.
+Eval cbv in "ASSUMPTIONS-OF C10_spec_override_discards"%string. Print Assumptions C10_spec_override_discards.
+
+(** Non-vacuity: override after a type conflict (mapping then scalar collected for k). *)
+Example C10_nonvacuous :
+  let m := [mk_entry (VStr "k") (VList [VMap []; VLit "x"]) false false] in
+  insert_impl m (VStr "~k") (VSeq []) false false = Ok [mk_entry (VStr "k") (VSeq []) false false].
+Proof. reflexivity. Qed.
